@@ -170,10 +170,12 @@ class PathEval:
                 return ("ptreq", self.ev(a[0]), self.ev(a[1]))
             if nm == "discriminant" and len(a) == 1:
                 return ("disc", self.variant(self.ev(a[0])))
-            if nm == "partial_cmp" and len(a) == 2:
-                return ("some", ("ord", self.comp_sign(self.ev(a[0]), self.ev(a[1]))))
-            if nm == "cmp" and len(a) == 2:
-                return ("ord", self.comp_sign(self.ev(a[0]), self.ev(a[1])))
+            if nm in ("partial_cmp", "cmp") and len(a) == 2:
+                x, y = self.ev(a[0]), self.ev(a[1])
+                if isinstance(x, tuple) and isinstance(y, tuple) and x[0] == "c" and y[0] == "c":
+                    o = ("ord", self.comp_sign(x, y))
+                    return ("some", o) if nm == "partial_cmp" else o
+                # whole operands: the type's own order, evaluated below like any helper of the type
             if nm in ("max", "min") and len(a) == 2:
                 x, y = self.ev(a[0]), self.ev(a[1])
                 s = self.comp_sign(x, y)
